@@ -66,13 +66,26 @@ def K_harness(spec_now, x):
     return x
 
 
-def config_timeline(spec):
-    """configuration (penalty, constraints, ranges) in force after each op; list aligned with ops"""
+def step_ran(sn):
+    """`_Step` was really executed during this Step op (every solver evaluates the cost in `_Step`)"""
+    pre = sn.get("pre")
+    return pre is not None and (sn["n_cb"] > pre["n_cb"] or sn["n_cost_calls"] > pre["n_cost_calls"])
+
+
+def config_timeline(spec, rec=None):
+    """configuration (penalty, constraints, ranges) in force after each op; list aligned with ops.
+    Settings handed to Step itself are processed by `_process_inputs` INSIDE `_Step`: a Step that finds the solver
+    stopped returns before that and installs nothing (so they count only when the iteration really ran)."""
     cur = {"penalty": spec.get("penalty"), "constraints": spec.get("constraints"), "ranges": spec.get("ranges")}
     out = []
     changed = False
-    for op in spec["ops"]:
-        if op[0] == "setpenalty":
+    for oi, op in enumerate(spec["ops"]):
+        if op[0] == "step" and len(op) > 1:
+            if rec is None or (oi < len(rec.snaps) and step_ran(rec.snaps[oi])):
+                cur = dict(cur); changed = True
+                for name, val in op[1].items():
+                    cur[name] = val
+        elif op[0] == "setpenalty":
             cur = dict(cur); cur["penalty"] = op[1]; changed = True
         elif op[0] == "setconstraints":
             cur = dict(cur); cur["constraints"] = op[1]; changed = True
@@ -82,8 +95,13 @@ def config_timeline(spec):
     return out
 
 
+def kw_step(op):
+    """a Step that was handed settings (constraints= / penalty=)"""
+    return op[0] == "step" and len(op) > 1
+
+
 def reconfigured(spec):
-    return any(op[0] in ("setpenalty", "setconstraints", "setranges", "settermination") for op in spec["ops"])
+    return any(op[0] in ("setpenalty", "setconstraints", "setranges", "settermination") or kw_step(op) for op in spec["ops"])
 
 
 def has_nan(rec):
@@ -113,7 +131,7 @@ def mon_c01(spec, rec):
     """fixed-configuration traces only (step / solve / finalize ops)"""
     out = []
     if reconfigured(spec):
-        return out
+        return mon_c01_reconfigured(spec, rec)
     solver = spec["solver"]
     pen = spec.get("penalty")
     vector_pen = spec["cost"][0] == "vector" and pen is not None
@@ -167,6 +185,46 @@ def mon_c01(spec, rec):
     return out
 
 
+def mon_c01_reconfigured(spec, rec):
+    """penalty changed between iterations (SetPenalty, or penalty= handed to Step): the reported energy must be the
+    user's cost plus the penalty that was ACTIVE when the reported point was evaluated.  A point can have been
+    evaluated under several configurations (Powell re-evaluates its current point at the start of every line
+    search; DE can meet a vector twice): the energy must match one of the evaluations of exactly that point.
+    Only penalty changes are followed (constraints / ranges changed mid-run: C02, C03); Nelder-Mead is left to the
+    fixed-configuration monitor (its stored vertices are pre-constraint and it resets its simplex on re-decoration:
+    F3, F20)."""
+    out = []
+    solver = spec["solver"]
+    if solver == "NM" or spec["cost"][0] == "vector":
+        return out
+    if any(op[0] in ("setconstraints", "setranges") or (kw_step(op) and "constraints" in op[1]) for op in spec["ops"]):
+        return out
+    tl = config_timeline(spec, rec)
+    # op index during which each cost call happened
+    call_op = []
+    start = 0
+    for si, sn in enumerate(rec.snaps):
+        call_op.extend([si] * (sn["n_cost_calls"] - start)); start = sn["n_cost_calls"]
+    for si, sn in enumerate(rec.snaps):
+        if sn["n_stepmon"] == 0 or not is_finite(sn["bestEnergy"]):
+            continue
+        best, bE = sn["bestSolution"], sn["bestEnergy"]
+        kb = key_of(best)
+        occ = [j for j in range(min(sn["n_cost_calls"], len(call_op))) if key_of(rec.cost_calls[j][0]) == kb]
+        if not occ:
+            out.append(("%s/best-not-evaluated" % solver, "reported best %r (energy %r) was never passed to the user's cost" % (best, bE), {"op_index": si}))
+            continue
+        wants = []
+        for j in occ:
+            pen_j = tl[call_op[j]][0]["penalty"]
+            wants.append(raw_cost(spec, best) + penalty_at(pen_j, best))
+        if not any(w == bE for w in wants):
+            out.append(("%s/best-energy-mismatch/penalty-changed-mid-run" % solver,
+                        "bestEnergy %r at best=%r, but cost + the penalty active at its evaluation(s) = %r" % (bE, best, sorted(set(wants))), {"op_index": si}))
+            break
+    return out
+
+
 # ---------------------------------------------------------------- C02
 def mon_c02(spec, rec):
     out = []
@@ -181,7 +239,7 @@ def mon_c02(spec, rec):
     # reported best inside the box when ranges were in force from the first iteration
     if spec.get("ranges") and not any(op[0] == "setranges" for op in spec["ops"]):
         box = (spec["ranges"][0], spec["ranges"][1])
-        tl = config_timeline(spec)
+        tl = config_timeline(spec, rec)
         for si, sn in enumerate(rec.snaps):
             if sn["n_stepmon"] == 0 or not is_finite(sn["bestEnergy"]):
                 continue
@@ -203,7 +261,7 @@ def mon_c02(spec, rec):
 def mon_c03(spec, rec):
     """every evaluated point satisfies the installed constraints; reported solution too"""
     out = []
-    tl = config_timeline(spec)
+    tl = config_timeline(spec, rec)
     rng = spec.get("ranges")
     if rng and rng[3] is False:
         return out            # the randomising clip=False is excluded by the property
@@ -222,7 +280,7 @@ def mon_c03(spec, rec):
                                 {"call_index": j, "op_index": si}))
                     return out
         start = end
-    if spec.get("constraints") is not None and not any(op[0] == "setconstraints" for op in spec["ops"]):
+    if spec.get("constraints") is not None and not any(op[0] == "setconstraints" or (kw_step(op) and "constraints" in op[1]) for op in spec["ops"]):
         term = spec["constraints"]
         cfg = {"penalty": spec.get("penalty"), "constraints": term, "ranges": spec.get("ranges")}
         for si, sn in enumerate(rec.snaps):
@@ -283,7 +341,7 @@ def mon_c04(spec, rec, solver_obj=None):
         if spec.get("callback", True) and not any(o[0] == "setstepmon" and o[1] for o in spec["ops"]):
             want = max(0, performed - 1)
             if want is not None and sn["generations"] != want:
-                out.append(("Powell/generations-counter/SetGenerationMonitor-drops-pending-record" if (solver == "Powell" and sn["generations"] < want and any(o[0] == "setstepmon" for o in spec["ops"][:si + 1])) else "Powell/generations-counter/finalize-appends-record" if (solver == "Powell" and sn["generations"] > want and (any(o[0] in ("finalize", "setpenalty", "setconstraints", "setranges", "setevalmon") for o in spec["ops"][:si + 1]) or any(q["ret"] is not None or q["op"][0] == "solve" for q in rec.snaps[:si + 1]))) else "%s/generations-counter" % solver, "generations = %d after %d completed iterations (+ initial evaluation)" % (sn["generations"], max(0, performed - 1)), {"op_index": si}))
+                out.append(("Powell/generations-counter/SetGenerationMonitor-drops-pending-record" if (solver == "Powell" and sn["generations"] < want and any(o[0] == "setstepmon" for o in spec["ops"][:si + 1])) else "Powell/generations-counter/finalize-appends-record" if (solver == "Powell" and sn["generations"] > want and (any(o[0] in ("finalize", "setpenalty", "setconstraints", "setranges", "setevalmon") or kw_step(o) for o in spec["ops"][:si + 1]) or any(q["ret"] is not None or q["op"][0] == "solve" for q in rec.snaps[:si + 1]))) else "%s/generations-counter" % solver, "generations = %d after %d completed iterations (+ initial evaluation)" % (sn["generations"], max(0, performed - 1)), {"op_index": si}))
                 break
         # energy history
         eh = sn["energy_history"]
@@ -349,6 +407,11 @@ def mon_c05(spec, rec):
                 reasons.append("termination condition holds")
             if reasons and ran:
                 out.append(("%s/iteration-begun-when-stopped" % solver, "a further iteration ran although " + ", ".join(reasons), {"op_index": si}))
+            # the limit bounds the evaluations really MADE (not only the solver's own counter; DE2 re-reads its counter
+            # from the evaluation monitor: known findings F21/F21b of C04)
+            elif ran and solver != "DE2" and pre["maxfun"] is not None and pre["n_cost_calls"] >= pre["maxfun"]:
+                out.append(("%s/iteration-begun-when-stopped/real-evaluations-reached-limit" % solver,
+                            "a further iteration ran although the user's cost had been called %d times, evaluation limit %r (solver.evaluations = %d)" % (pre["n_cost_calls"], pre["maxfun"], pre["evaluations"]), {"op_index": si}))
             # the resolved limits must be what was asked for
             if total is not None:
                 g, e = total
